@@ -10,8 +10,7 @@
    What is NOT in this model (it belongs to other models or to the exploration): the directory lookup of adfFileOpen and
    adfCreateFile, the date stamp, the hash-chain link refresh, the directory-cache update and the bitmap write of adfFileFlush, the
    bitmap bits themselves (the allocator is an oracle: a list of answers; the blocks a truncation gives back are an output),
-   device WRITE failures, malloc failures, the OFS fallback seek adfFileSeekOFS_ (reached only after a failed extension-block
-   seek: device fault or corrupted image), checksums and block type fields (Proofs/ChecksumP, Spec/Decode).
+   device WRITE failures, malloc failures, checksums and block type fields (Proofs/ChecksumP, Spec/Decode).
    Device READ failures are in the model: `bad` is the set of unreadable blocks.
 
    Hand-written; tied to the C code by checks/fileiocorr.py: after every call of a generated history the fields of the real
@@ -177,6 +176,30 @@ Section FileIO.
     | Some d => (true, set_ndb (set_cdata s2 d) (ndb s2 + 1))
     end.
 
+  (* ---- adfFileSeekOFS_: the fallback of an OFS seek whose extension-block walk failed - back to the start, then along the data blocks.
+          The result of adfFileSeekStart_ is not looked at by the C code; neither here. ---- *)
+  Fixpoint ofs_walk (fuel : nat) (s : hstate) (offset target : Z) : bool * hstate :=
+    match fuel with
+    | O => (true, s)
+    | S f =>
+        if offset <? target then
+          let size := Z.min (target - offset) (bs - pind s) in
+          let s1 := set_pind (set_pos s (pos s + size)) (pind s + size) in
+          let offset' := offset + size in
+          if (pind s1 =? bs) && (offset' <? target) then
+            let '(ok, sn) := read_next s1 in
+            if ok then ofs_walk f (set_pind sn 0) offset' target else (false, set_cur sn 0)
+          else ofs_walk f s1 offset' target
+        else (true, s)
+    end.
+  Definition seek_ofs (eofk : hstate -> bool * hstate) (s : hstate) (p : Z) : bool * hstate :=
+    let s0 := snd (seek_start s) in
+    let p' := Z.min p (fsize s0) in
+    if p' =? fsize s0 then eofk s0 else ofs_walk (Z.to_nat (p' / bs + 2)) s0 0 p'.
+  (* the tail of adfFileSeek: status = adfFileSeekExt_(...); if it failed on an OFS volume, the fallback *)
+  Definition seek_fb (eofk : hstate -> bool * hstate) (r : bool * hstate) (p : Z) : bool * hstate :=
+    if negb (fst r) && ofs then seek_ofs eofk (snd r) p else r.
+
   (* ---- adfFileSeek, with the end-of-file branch of adfFileSeekExt_ as a parameter (adfFileSeekEOF_ calls adfFileSeek again) ---- *)
   Definition seek_gen (eofk : hstate -> bool * hstate) (s : hstate) (p : Z) : bool * hstate :=
     if (pos s =? p) && negb (cur s =? 0) && negb (pind s =? bs) then (true, s) else
@@ -188,7 +211,7 @@ Section FileIO.
       let s1 := if mw s && chg s then set_chg (fio_flush s) false else s in
       if p =? 0 then seek_start s1 else
       let s2 := set_pos s1 (Z.min p (fsize s1)) in
-      if pos s2 =? fsize s2 then eofk s2 else seek_mid s2.
+      seek_fb eofk (if pos s2 =? fsize s2 then eofk s2 else seek_mid s2) p.
 
   (* ---- adfFileSeekEOF_ ---- *)
   Definition seek_eof (s : hstate) : bool * hstate :=
